@@ -1432,7 +1432,9 @@ class Interp:
                 sb, cb = (a, b) if isinstance(a, SBool) else (b, a)
                 t = sb.t if cb else z3.Not(sb.t)
                 return SBool(t) if isinstance(op, ast.Is) else SBool(z3.Not(t))
-            if is_sym(a) or is_sym(b):
+            if isinstance(a0, SObj) or isinstance(b0, SObj):
+                r = a0 is b0            # objects created during the run have an identity
+            elif is_sym(a) or is_sym(b):
                 if a is None or b is None:
                     r = False
                 else:
